@@ -56,3 +56,10 @@ pub fn vx_slice<'a>(s: &'a str, a: usize, b: usize) -> (r: &'a str)
 {
     &s[a..b]
 }
+/// eager stand-in for `s.chars()` when it is the iterable of a `for` loop (rewrite rule R-chars)
+#[verifier::external_body]
+pub fn vx_chars(s: &str) -> (r: Vec<char>)
+    ensures r@ == s@,
+{
+    s.chars().collect()
+}
